@@ -322,6 +322,10 @@ def apply_op(op, cur, other):
             return torch.index_select(cur, op["dim"], idx)
         if call == "kw":
             return cur.index_select(dim=op["dim"], index=idx)
+        if call == "mixed":                       # `dim` positional, `index` by keyword (seeded change C19-10)
+            return cur.index_select(op["dim"], index=idx)
+        if call == "torchmixed":
+            return torch.index_select(cur, op["dim"], index=idx)
         return torch.index_select(cur, dim=op["dim"], index=idx)
     if n in ("cat", "stack"):
         members = [cur if c == "c" else other for c in op["ops"]]
@@ -785,7 +789,7 @@ def gen_op(rng: random.Random, cur, other) -> Optional[dict]:
             idx = [rng.randrange(n) for _ in range(n)]
         else:
             idx = [rng.randrange(n) for _ in range(rng.randint(0, n + 2))]
-        op.update(dim=d, idx=idx, call=rng.choice(["method", "torch", "kw", "torchkw"]))
+        op.update(dim=d, idx=idx, call=rng.choice(["method", "torch", "kw", "torchkw", "mixed", "torchmixed"]))
     elif name in ("cat", "stack"):
         r = rng.random()
         if other is not None and is_batch and r < 0.45:
@@ -1101,6 +1105,8 @@ def survey_ops(nd: int, n0: int, batch: bool = True) -> List[dict]:
             {"op": "roll", "shifts": [1, 2], "dims": [0]},
             {"op": "isel", "dim": 0, "idx": [n0 - 1, 0, 0], "call": "kw"}, {"op": "isel", "dim": -nd, "idx": list(reversed(range(n0))), "call": "torchkw"},
             {"op": "isel", "dim": last, "idx": [1, 0], "call": "kw"},
+            {"op": "isel", "dim": 0, "idx": list(reversed(range(n0))), "call": "mixed"},
+            {"op": "isel", "dim": -nd, "idx": [n0 - 1] + list(range(n0 - 1)), "call": "torchmixed"},
             {"op": "permute", "perm": [1, 0] + list(range(2, nd))}, {"op": "permute", "perm": list(range(nd - 2)) + [last, last - 1]},
             {"op": "permute", "perm": list(range(nd))}, {"op": "transpose", "d0": 0, "d1": 1}, {"op": "transpose", "d0": 0, "d1": last},
             {"op": "transpose", "d0": last, "d1": last - 1}, {"op": "transpose", "d0": 1, "d1": 1},
